@@ -68,7 +68,11 @@ def main():
     T = {}
     export = read("ts-rs/src/export.rs")
     lib = read("ts-rs/src/lib.rs")
-    attr_mod = read("macros/src/attr/mod.rs")
+    import glob as _glob
+    # the attribute parsers live in macros/src/attr/: a function may move between the files of that directory
+    attr_mod = "\n".join(open(f, encoding="utf-8").read() for f in sorted(_glob.glob(os.path.join(REPO, "macros/src/attr/**/*.rs"), recursive=True)))
+    # ... and the export machinery in ts-rs/src/export.rs and the files below ts-rs/src/export/
+    export = export + "\n" + "\n".join(open(f, encoding="utf-8").read() for f in sorted(_glob.glob(os.path.join(REPO, "ts-rs/src/export/**/*.rs"), recursive=True)))
     U = "<untranslated>"
 
     # ---- constants -----------------------------------------------------------------------------
@@ -108,7 +112,7 @@ def main():
             # tolerant second reading: the arms wherever they are inside that function (up to the next top-level item)
             f = re.search(r'fn parse_assign_inflection\b.*?(?=\n(?:pub(?:\([^)]*\))?\s+)?fn\s|\nimpl\s|\Z)', attr_mod, flags=re.S)
             scope = f.group(0) if f else None
-        if scope is None: fail("parse_assign_inflection in attr/mod.rs")
+        if scope is None: fail("parse_assign_inflection in macros/src/attr/")
         infl = re.findall(r'"([^"]+)"\s*=>\s*(?:Inflection|Self)::(\w+)', scope)
         if len(infl) < 1:
             infl = re.findall(r'"([^"]+)"\s*=>\s*(?:Inflection|Self)::(\w+)', attr_mod)
@@ -247,11 +251,21 @@ def main():
         # extracting a helper that takes `&HashMap<..>` does not change the inventory
         src = re.sub(r'^\s*(?:pub(?:\([^)]*\))?\s+)?use\s[^;]*;', '', src, flags=re.M)
         src = re.sub(r'\bfn\s+\w+[^{;]*(?=[{;])', 'fn _', src)
+        # ... and not REFERENCE types (`&HashMap<..>`, `&'a mut HashSet<..>` in a field or a local annotation): a reference passes an
+        # existing container on, it never makes one
+        src = re.sub(r"&\s*(?:'\w+\s+)?(?:mut\s+)?(?:(?:std::)?collections::)?(?:HashMap|HashSet|BTreeMap|BTreeSet)\b", '&_', src)
         for pat in ("HashMap", "HashSet", "BTreeMap", "BTreeSet", "TypeId", "env::var", "std::thread", "Mutex", "OnceLock", "RandomState", "Instant", "SystemTime", "rand"):
             n = len(re.findall(r'\b' + re.escape(pat) + r'\b', src))
             if n:
                 inv.append((rel, pat, n))
     T["order_inventory"] = inv
+    # the theorem compares TOTALS PER CRATE (moving code between the files of a crate changes nothing); the per-file rows stay in
+    # tables.json for the report
+    tot = {}
+    for rel, pat, n in inv:
+        crate = rel.split("/")[0]
+        tot[(crate, pat)] = tot.get((crate, pat), 0) + n
+    T["order_inventory_crate"] = [(c, p_, n) for (c, p_), n in sorted(tot.items())]
 
     # ---- render -----------------------------------------------------------------------------------
     L = []
@@ -276,8 +290,8 @@ def main():
         nm = "keys_" + k.replace(":", "_")
         L.append(f"def {nm} : List (String × String × String × String) := [\n  " + ",\n  ".join(
             "(" + ", ".join(lean_str(x) for x in r) + ")" for r in rows) + "]")
-    L.append("/-- every occurrence of an order- or environment-sensitive construct: (file, construct, count) -/")
-    L.append("def orderInventory : List (String × String × Nat) := [\n  " + ",\n  ".join(f"({lean_str(a)}, {lean_str(b)}, {c})" for a, b, c in T["order_inventory"]) + "]")
+    L.append("/-- every occurrence of an order- or environment-sensitive construct, totals per crate: (crate, construct, count) -/")
+    L.append("def orderInventory : List (String × String × Nat) := [\n  " + ",\n  ".join(f"({lean_str(a)}, {lean_str(b)}, {c})" for a, b, c in T["order_inventory_crate"]) + "]")
     L.append("end TsRs.Gen")
     text = "\n".join(L) + "\n"
     os.makedirs(os.path.dirname(OUT), exist_ok=True)
